@@ -1406,6 +1406,8 @@ class Interp(object):
         if isinstance(f, TypeTok):
             return self.builtins["__construct__"](f, args, kwargs)
         if isinstance(f, Obj):
+            if "__call__" in f.fields:
+                return self.call(f.fields["__call__"], args, kwargs)
             g, owner = f.cls.lookup("__call__")
             if owner is None:
                 raise PyRaise(mk_exc("TypeError", "%s object is not callable" % f.cls.name))
